@@ -74,6 +74,8 @@ func c15Floors(r *vcommon.Run) {
 	r.Floor("bad_duplicate", 50)
 	r.Floor("bad_wrong-number", 50)
 	r.Floor("bad_unknown-parent", 50)
+	r.Floor("prunes_in_sibling_fan_of_8_or_more", 10)
+	r.Floor("prunes_of_block_4_or_more_below_root", 20)
 }
 
 // exhC15 drives one (tree, parent-first insertion order) pair given as a parent
@@ -151,7 +153,7 @@ func randC15(c *vcommon.Case) {
 	e.structural = true
 	e.pairBudget = 120
 	target := c.R.Range(6, 40)
-	style := c.R.Intn(4)
+	style := c.R.Intn(5) // 0 hubs, 1 chains, 2 uniform, 3 mixed, 4 one wide fan below the root first
 	markMode := c.R.Intn(3)
 	hubs := []int{0}
 	next := 1
@@ -162,6 +164,8 @@ func randC15(c *vcommon.Case) {
 		case x < 80:
 			var p *mBlock
 			switch {
+			case style == 4 && adds < target/2 && c.R.Chance(4, 5):
+				p = e.m.root
 			case style == 0 || (style == 3 && c.R.Chance(1, 2)):
 				// wide fans: attach to one of a few hubs
 				var liveHubs []*mBlock
@@ -262,5 +266,5 @@ func TestVerifC15(t *testing.T) {
 		r.Fixed("exh8", len(pv8), func(c *vcommon.Case) { exhC15(c, pv8[c.Idx], false) })
 	}
 
-	r.Cases("rand", r.Scale(300), randC15)
+	r.Cases("rand", r.Scale(400), randC15)
 }
